@@ -939,6 +939,8 @@ def overlap_search_rule(R, ea, methods):
         R.ok('overlap-search: decided by C07.D17', nontrivial=False)
 
 MUTANTS = [
+    ('pool-membership-ignores-width', 'miasmx/expression/expression_eval_abstract.py', '        return self.pool_mem[k][0].get_size() == a.get_size()', '        return True', 'C07.D17'),
+
     ('store-fast-path-narrower-cell', 'miasmx/expression/expression_eval_abstract.py', "                ov = self.get_mem_overlapping(op)\n", "                old = self.find_mem_by_addr(op.arg)\n                if old is not None and old.size <= op.size:\n                    ov = []\n                else:\n                    ov = self.get_mem_overlapping(op)\n", 'C07.D16'),
     ('bigger-lookup-next-address-unsimplified', 'miasmx/expression/expression_eval_abstract.py', "                ptr = expr_simp(ExprOp('+', ptr, ExprInt(uint32(v.size//8))))", "                ptr = ExprOp('+', ptr, ExprInt(uint32(v.size//8)))", 'C07.D15'),
     ('substract-mems-tail-from-cell', 'miasmx/expression/expression_eval_abstract.py', "                ex = ExprOp('+', b.arg, ExprInt(uint32(b.size/8)))", "                ex = ExprOp('+', a.arg, ExprInt(uint32(b.size/8)))", 'C07.D13'),
